@@ -87,7 +87,7 @@ class Batch:
             f = os.path.join(self.emit_dir, "sc-%s-%d-%d.jsonl" % (self.variant, idx, frm))
             self.emitted.append(f)
             cmd += ["--emit", f]
-        p = subprocess.Popen(cmd, stdout=subprocess.PIPE, stderr=subprocess.PIPE, text=True)
+        p = subprocess.Popen(cmd, stdout=subprocess.PIPE, stderr=subprocess.PIPE, text=True, env=hb.run_env(self.variant))
         return {"p": p, "from": frm, "count": count, "progress": prog, "idx": idx}
 
     def run_files(self, files):
@@ -96,7 +96,7 @@ class Batch:
         for i, f in enumerate(files):
             prog = os.path.join(self.tmp, "progress-%s-b%d" % (self.variant, i))
             cmd = [self.binary, "worker", "--prop", self.prop, "--tier", self.tier, "--seed-base", str(self.seed), "--batch", f, "--progress", prog]
-            jobs.append({"p": subprocess.Popen(cmd, stdout=subprocess.PIPE, stderr=subprocess.PIPE, text=True), "progress": prog, "file": f})
+            jobs.append({"p": subprocess.Popen(cmd, stdout=subprocess.PIPE, stderr=subprocess.PIPE, text=True, env=hb.run_env(self.variant)), "progress": prog, "file": f})
         for j in jobs:
             out, err = j["p"].communicate()
             rc = j["p"].returncode
@@ -180,7 +180,7 @@ class Batch:
         path = os.path.join(self.tmp, "trace-%s-%d" % (self.variant, index))
         cmd = [self.binary, "worker", "--prop", self.prop, "--tier", self.tier, "--seed-base", str(self.seed), "--from", str(index), "--count", "1", "--trace", path]
         try:
-            subprocess.run(cmd, stdout=subprocess.DEVNULL, stderr=subprocess.DEVNULL, timeout=120)
+            subprocess.run(cmd, stdout=subprocess.DEVNULL, stderr=subprocess.DEVNULL, timeout=120, env=hb.run_env(self.variant))
         except subprocess.TimeoutExpired:
             pass
         sc = None
@@ -241,7 +241,7 @@ def replay_cmd(path):
     ok, dt, _ = hb.build(variant)
     if not ok:
         harness_error("build of variant %s failed" % variant)
-    rp = mini.Replayer(hb.binary(variant), os.path.join(hb.build_root(), "tmp"))
+    rp = mini.Replayer(hb.binary(variant), os.path.join(hb.build_root(), "tmp"), env=hb.run_env(variant))
     cls, viol, owned = rp.run_file(path)
     if cls is None:
         log("replay: no violation (the property holds on this scenario)")
@@ -325,7 +325,7 @@ def run_check(prop, tier, seed):
             if sc is None:
                 harness_error("worker died (%s) and the in-flight run could not be reconstructed: %s" % (c["why"], c["stderr"]))
             violations.append({"seed_index": c["index"], "seed": sc.get("seed", 0), "variant": b.variant, "violation": {"class": cls, "op_index": len(sc["ops"]) - 1, "op_kind": sc["ops"][-1]["k"] if sc["ops"] else "?", "detail": c["stderr"][-300:]}, "scenario": sc})
-    if tot["runs"] == 0:
+    if tot["runs"] == 0 and not any(b.crashes for b in batches):
         harness_error("no run completed")
     # ---- violations: minimise, verify replay, consult known findings
     known, fixed = load_known()
@@ -343,7 +343,7 @@ def run_check(prop, tier, seed):
         if len(reported) >= int(os.environ.get("HBSIM_MAX_REPORTS", "3")):
             also_seen.append("%s in %s (%s), run index %s" % key[:1] + (sc["world"], viol.get("op_kind"), v["seed_index"]) if False else "%s world=%s op=%s run=%s" % (viol["class"], sc["world"], viol.get("op_kind"), v["seed_index"]))
             continue
-        rp = mini.Replayer(hb.binary(v["variant"]), tmp)
+        rp = mini.Replayer(hb.binary(v["variant"]), tmp, env=hb.run_env(v["variant"]))
         if viol["class"].startswith("differential/"):
             # needs both back-ends: not minimised; the replay file carries the transcript of the first build
             os.makedirs(rdir, exist_ok=True)
